@@ -18,11 +18,70 @@ HOOK_COMMITS = ['ecfdecf6134e655e1b3825531d69c192388fc6ba']
 
 ANY = r'.*'
 
+
+ADMIN_RE = r'TX:(' + '|'.join(M.ADMIN_ROLE) + r')$'
+ROLE_TX_RE = r'TX:(UpdateOwner|AcceptOwner|UpdateAttesterManager|UpdatePauser|UpdateTokenController)$'
+ATT_TX_RE = r'TX:(EnableAttester|DisableAttester|UpdateSignatureThreshold)$'
+
+
+def _unauth_map(sc):
+    m = getattr(sc, '_unauth', None)
+    if m is None:
+        m = {}
+        for (_sc, n, inp, cmd, ty, a, pre, obs) in M.walk([sc]):
+            if cmd == 'TX' and ty in M.ADMIN_ROLE:
+                st = M.state_of(pre)
+                m[n] = st['role'].get(M.ADMIN_ROLE[ty]) != a.get('from')
+        sc._unauth = m
+    return m
+
+
+def unauthorised(sc, n):
+    return _unauth_map(sc).get(n, False)
+
+
 CONFIG = {
+    'C10': {
+        'profiles': [('roles-matrix', 324, 324), ('admin-random', 30, 600)],
+        # the property speaks about submitters who do not hold the role: only those steps are compared
+        'rules': [(ADMIN_RE, 'R', None, unauthorised), (ADMIN_RE, 'S', None, unauthorised), (ADMIN_RE, 'E', None, unauthorised)],
+        'monitors': [M.mon_c10],
+        'level_text': 'Theorem for all states with the four role slots set (an invariant of every initialised chain, also proved), all 18 privileged transaction types and all submitters other than the holder of the matching role: the outcome is an error (never a panic) and store, ledger, events and dependency calls are untouched. The Go handlers are tied to the model by exhaustive differential execution of the whole matrix (every assignment of five role slots over three accounts x 18 types x 3 submitters) in both tiers.',
+        'assumptions': ['accounts are identified by the From string as the code does; an upper-case spelling of the holder is a different submitter'],
+    },
+    'C11': {
+        'profiles': [('roles-lifecycle', 60, 1500), ('roles-matrix', 60, 324)],
+        'rules': [(ANY, 'S', r'^role '), (ROLE_TX_RE, 'R', None), (ROLE_TX_RE, 'E', None), (r'Q:Roles', 'QR', None)],
+        'monitors': [M.mon_c11],
+        'level_text': 'Theorem: for every transaction of every type by every submitter, accepted or not, the five role slots move exactly as the lifecycle automaton (Spec/Lifecycle.v) says, and therefore along every history; supersession, no replay of an acceptance, ownership only by acceptance of the pending owner, other roles only by the owner\'s update and only to valid addresses are proved on the automaton. The Go handlers are tied to the model by differential execution of role histories with valid, malformed, wrong-prefix, empty and upper-case new holders, interleaved with every other transaction type.',
+    },
+    'C13': {
+        'profiles': [('attester-closure', 100, 1000), ('admin-random', 30, 600)],
+        'rules': [(ATT_TX_RE, 'R', None), (ANY, 'S', r'^(attester |num name=threshold)'), (ATT_TX_RE, 'E', None),
+                  (r'Q:(Attesters|SignatureThreshold)', 'QR', None)],
+        'monitors': [M.mon_c13],
+        'level_text': 'Theorem: 1 <= threshold <= number of enabled attesters is preserved by every transaction of every type with any arguments by any submitter, hence along every history of any length (up to the 2^32 point where Go\'s uint32(len) wraps, stated); the six named rejections are proved to be errors without effect. The Go handlers are tied to the model by exhaustive differential execution from every start state over a universe of 4 (thorough: 5) attester strings.',
+    },
+    'C15': {
+        'profiles': [('admin-random', 40, 800), ('roles-matrix', 40, 324)],
+        'rules': [(r'TX:.*', 'S', None), (r'TX:.*', 'R', r'^(ok|err|panic)')],
+        'model_monitors': [M.mon_c15],
+        'level_text': 'Theorem: for every transaction type, input, state and dependency plan the store after the transaction agrees with the store before on every entry outside the documented write set (Spec/WriteDoc.v); transactions that are not accepted change nothing; collections a type does not write are unchanged as lists. Tied to the Go code twice: the tracing store service records every raw key written by every call and they must lie inside the documented set evaluated by the extracted specification for the concrete request; the per-handler write primitives are regenerated from the Go source on every run.',
+    },
+
     'C16': {
         'profiles': [('codec', 3000, 100000)],
         'rules': [(r'CODEC:.*', 'C', None)],
         'level_text': 'Theorems for all byte strings and all values: the model codec equals an independent literal-offset layout of the CCTP formats, decode-then-encode and encode-then-decode are identities on valid sizes / well-formed values, wrong sizes are rejected. The Go Parse/Bytes functions are tied to the model by differential execution on generated and boundary-length inputs.',
         'assumptions': ['integers of a decoded Message are uint32/uint64 in Go; the encode->decode theorem states those ranges as message_wf / burn_wf'],
     },
+}
+
+import os
+ALLK = ['R','E','D','S','QR','V','A','C','GV','GI','XR','X']
+CONFIG['DEV'] = {
+    'claimed': False, 'na_reason': 'development aid, not a property',
+    'profiles': [(x, int(os.environ.get('DEV_N', '5')), 50) for x in os.environ.get('DEV_PROFILES', 'admin-random').split(',')],
+    'rules': [(ANY, k, None) for k in ALLK],
+    'level_text': 'dev',
 }
